@@ -290,6 +290,34 @@ def build_harness(profile='dev', features=None):
     return exe
 
 
+def build_pymodule():
+    """build the Python extension module from /repo's working tree (feature python, cdylib); -> directory containing num_dual.abi3.so"""
+    with Lock('pymodule'):
+        out = CACHE + '/py'
+        os.makedirs(out, exist_ok=True)
+        h = repo_hash()
+        stamp = out + '/stamp'
+        if os.path.exists(stamp) and open(stamp).read() == h and os.path.exists(out + '/num_dual.abi3.so'):
+            return out
+        env = dict(os.environ, CARGO_NET_OFFLINE='true', CARGO_TARGET_DIR=CACHE + '/pytarget')
+        rc, o, e = sh(['cargo', 'rustc', '--lib', '--offline', '--features', 'python', '--crate-type', 'cdylib'], 3000, cwd=REPO, env=env)
+        if rc != 0:
+            raise InfraError('building the python module failed:\n' + (e or o)[-3000:])
+        so = CACHE + '/pytarget/debug/libnum_dual.so'
+        if not os.path.exists(so):
+            raise InfraError('python module not produced at ' + so)
+        shutil.copy(so, out + '/num_dual.abi3.so')
+        open(stamp, 'w').write(h)
+        return out
+
+
+def run_pymodule(moddir, cases, timeout=900):
+    rc, o, e = sh(['python3-vt', ROOT + '/tools/pyrun.py', moddir], timeout, inp=json.dumps(cases))
+    if rc != 0:
+        raise InfraError('python runner failed: ' + (e or o)[-2000:])
+    return json.loads(o)
+
+
 def run_harness(exe, lines, timeout=600):
     rc, o, e = sh([exe], timeout, inp='\n'.join(lines) + '\n')
     if rc != 0:
